@@ -205,6 +205,49 @@ async def _resume_after_cancel(seed, hang=False):
     return dict(cancelled=True, obs=obs, rec=rec2, spec=spec, entered_before=entered_before, rounds=rounds)
 
 
+async def _resume_after_cancel_wait(seed):
+    """cancel while invocations whose wait_for_event was already RESOLVED are still replaying (parked at a gate after the
+    wait), serialize through JSON, resume: the replayed steps must find their waits resolved and the run must finish"""
+    rng = random.Random(seed)
+    rec = E.Recorder()
+    spec, ext, opts = S.waitflow(rng, gate_after=True)
+    wf = E.build_workflow(spec, rec)
+    handler = wf.run()
+    consumer = asyncio.ensure_future(_drain(handler))
+    await vloop.settle()
+    before = rng.randint(1, len(ext))
+    for f in ext[:before]:
+        f(handler, rec)
+        await vloop.settle()
+    parked = len(rec.waiting)
+    if handler._result_task.done():
+        await asyncio.gather(consumer, return_exceptions=True)
+        return dict(cancelled=False)
+    if not parked:               # only non-matching responses so far: nothing replays yet; stop the run and skip
+        await handler.cancel_run()
+        await vloop.settle()
+        try:
+            await handler
+        except BaseException:  # noqa: BLE001
+            pass
+        await asyncio.gather(consumer, return_exceptions=True)
+        return dict(cancelled=False)
+    await handler.cancel_run()
+    await vloop.settle()
+    try:
+        await handler
+    except BaseException:  # noqa: BLE001
+        pass
+    await asyncio.gather(consumer, return_exceptions=True)
+    d = json.loads(json.dumps(handler.ctx.to_dict()))
+    rec2 = E.Recorder()
+    rec2.eid = rec.eid
+    wf2 = E.build_workflow(spec, rec2)
+    obs = await E.drive(wf2, rec2, rng, ctx=Context.from_dict(wf2, d), externals=ext[before:], policy="random")
+    return dict(cancelled=True, obs=obs, rec=rec2, spec=spec, parked=parked, delivered_before=[f.label for f in ext[:before]],
+                remaining=[f.label for f in ext[before:]])
+
+
 class _DoneObs:
     """a run that finished before it could be cancelled a second time"""
 
@@ -275,14 +318,29 @@ def run(ctx):
             if sorted(tev[0].active_steps) != cut or tev[0].timeout != r["T"]:
                 rf.append(dict(seed=seed, hang=True, why="resumed run: WorkflowTimedOutEvent names %s timeout=%s, the steps cut off were %s, "
                                "configured %s" % (sorted(tev[0].active_steps), tev[0].timeout, cut, r["T"])))
-    ctx.programs += nres + nh
+    nw, waited = ctx.n(40, 800), 0
+    for i in range(nw):
+        seed = rng.randrange(1 << 30)
+        r = vloop.run(_resume_after_cancel_wait(seed))
+        if not r.get("cancelled"):
+            continue
+        waited += 1
+        obs = r["obs"]
+        ctx.count(1, ("resume-wait", r["parked"], tuple(r["remaining"])))
+        if not obs.done or obs.exception is not None or obs.result != "done":
+            rf.append(dict(seed=seed, wait=True, why="a run cancelled while %d invocations with an already resolved wait_for_event were "
+                           "still replaying (responses %s delivered before), serialized and resumed (then given %s), did not finish: "
+                           "done=%s result=%r exception=%r stuck=%s"
+                           % (r["parked"], r["delivered_before"], r["remaining"], obs.done, obs.result, obs.exception, obs.stuck)))
+    ctx.programs += nres + nh + nw
     ctx.suite("engine.resume_after_cancel", attempts=nres, cancelled_and_resumed=resumed, failures=len(rf),
-              resumed_and_left_hanging=hung)
+              resumed_and_left_hanging=hung, cancelled_during_wait_replay=waited)
     ctx.require_coverage("engine.resume_after_cancel", "resumed_and_left_hanging", hung, 10)
+    ctx.require_coverage("engine.resume_after_cancel", "cancelled_during_wait_replay", waited, 10)
     ctx.require_coverage("engine.resume_after_cancel", "cancelled_and_resumed", resumed, 20)
     for f in rf[:3]:
         ctx.violation("C31 fails on the real engine: %s" % f["why"],
-                      dict(kind="implementation-monitor/L2", input=dict(template="fanout+cancel+resume" + ("+hang" if f.get("hang") else ""), seed=f["seed"])))
+                      dict(kind="implementation-monitor/L2", input=dict(template=("waitflow(gate after wait)" if f.get("wait") else "fanout") + "+cancel+resume" + ("+hang" if f.get("hang") else ""), seed=f["seed"])))
     report_l2(ctx, fails)
     from props._engine_common import run_runnerdiff
     run_runnerdiff(ctx, ctx.n(60, 1500), 'C31_finished_run_is_frozen / C31_no_command_after_the_halt')
